@@ -22,7 +22,7 @@ def run(ctx):
     jobs = gc.jobs_for(progs, 24 if ctx.quick else 120, 10 if ctx.quick else 40, ctx.seed, opts)
     # preemption-bounded systematic search (every schedule with <= 1 preemption, yields before and after each operation)
     searches = [(p, 1, 250 if ctx.quick else 6000, {"post_yields": True}) for p in progs[: 6 if ctx.quick else 14]]
-    
+    life = gc.chanlife_part(ctx, ["C03."], 3 if ctx.quick else 5)
     res = gc.run_and_judge(ctx, jobs, ["C03."], lambda evs: any(e["ev"] == "ret" and e["op"] == "receive" and e["res"] == "EOF" for e in evs) and any(e["ev"] == "ret" and e["op"] in ("send", "isclosed") for e in evs), None, searches=searches)
     gwrun.close_pool()
     ctx.coverage.update({
@@ -35,5 +35,6 @@ def run(ctx):
         "other_property_rejections": res["other_property_rejections"], "tlc": mc["detail"],
         "bounded_search": {"programs": res["bounded_searches"], "runs": res["bounded_search_runs"], "finished_exhaustively": res["bounded_searches_finished"]},
     })
+    ctx.coverage["chanlife_replay"] = life
     ctx.assumptions += gc.ASSUMPTIONS
     return "model_checking"
